@@ -119,6 +119,7 @@ type pkgDecls struct {
 	Methods map[string][]string `json:"methods"` // receiver base type -> method names (one per declaration)
 	Fields  map[string][]string `json:"fields"`  // struct type -> field names
 	Iface   map[string][]string `json:"iface"`   // interface type -> explicit method names
+	Params  map[string][]string `json:"params"`  // "Iface.Method" -> parameter names
 	Imports []string            `json:"imports"`
 }
 
@@ -172,7 +173,7 @@ func runGoDecls(in, out string) error {
 			dir := fn[:strings.LastIndex(fn, "/")+1]
 			pd := res.Pkgs[dir]
 			if pd == nil {
-				pd = &pkgDecls{Top: map[string][]string{}, Methods: map[string][]string{}, Fields: map[string][]string{}, Iface: map[string][]string{}}
+				pd = &pkgDecls{Top: map[string][]string{}, Methods: map[string][]string{}, Fields: map[string][]string{}, Iface: map[string][]string{}, Params: map[string][]string{}}
 				res.Pkgs[dir] = pd
 			}
 			if f.Name != nil {
@@ -216,6 +217,15 @@ func runGoDecls(in, out string) error {
 								for _, fl := range t.Methods.List {
 									for _, n := range fl.Names {
 										names = append(names, n.Name)
+										if ft, ok := fl.Type.(*ast.FuncType); ok && ft.Params != nil {
+											ps := []string{}
+											for _, prm := range ft.Params.List {
+												for _, pn := range prm.Names {
+													ps = append(ps, pn.Name)
+												}
+											}
+											pd.Params[s.Name.Name+"."+n.Name] = ps
+										}
 									}
 								}
 								pd.Iface[s.Name.Name] = names
